@@ -302,6 +302,7 @@ func checkC19(run *mon.Run, rng *mon.Rand, thorough bool) {
 	for h := 0; h < hist && !run.TooMany(); h++ {
 		r := rng.Split()
 		w := &c19World{run: run, rng: r, env: newL1Env(0, nil), metadata: map[uint64][]byte{}, feat: map[string]int{}}
+		w.env.L1.Speculate = r.Bool()
 		for i := 0; i < 5; i++ {
 			w.channels = append(w.channels, ophosthook.PortChannelID{PortID: "transfer", ChannelID: fmt.Sprintf("channel-%d", i)})
 		}
